@@ -59,7 +59,8 @@ Section DwellRun.
     - (* remove *) destruct (lookup base (mloaded m)); cbn; ring.
     - (* farcall *) destruct (lookup base (mloaded m)) as [path|]; [|cbn; ring].
       pose proof (call_quiet m path) as H. destruct (call m path) as [m1 ev]. cbn [snd] in *.
-      unfold dwell_sum in *. cbn [fold_right]. exact H.
+      change (dwell_sum (ECall base :: ev ++ [ERet])) with (dwell_sum (ev ++ [ERet])).
+      rewrite dwell_sum_app, H. cbn. ring.
     - (* buffered *) destruct (lookup base (mloaded m)); cbn; ring.
   Qed.
 
